@@ -57,7 +57,8 @@ PayloadOK(slot, c) ==
   \/ slot.kind \in EntityKinds /\ Trim(c.payloaddec) = Content(slot)
 
 OutData(o) == IF o.found THEN o.data ELSE <<>>          \* an attribute that became empty is dropped
-B64Len(n) == 7 + 4 * ((n + 2) \div 3)                   \* ";base64" + base64 length of n bytes
+\* length of the base64 form "data:" mediatype ";base64," data  of an n-byte result (the media type is at most the slot's own)
+B64Form(slot, n) == 5 + Len(slot.mt) + 8 + 4 * ((n + 2) \div 3)
 \* "... correctly re-escaped for the host syntax": the slot of the output decodes to exactly the nested result
 SlotOutOK(slot, c, o) ==
   /\ o.bad = ""
@@ -65,7 +66,8 @@ SlotOutOK(slot, c, o) ==
             \/ o.found /\ o.data = c.out
             \* README (CSS): "rewrite data URIs with base64 or ASCII whichever is shorter": a URI left
             \* exactly as it was is acceptable only when it is shorter than the base64 form of the result
-            \/ o.found /\ o.raw = slot.raw /\ Len(slot.raw) < B64Len(Len(c.out))
+            \* (never longer than the input, /repo 8f5eddf; the bound does not depend on the escaping table)
+            \/ o.found /\ o.raw = slot.raw /\ Len(slot.raw) < B64Form(slot, Len(c.out))
        [] slot.kind \in EntityKinds ->
             IF Exact(slot, c) THEN OutData(o) = c.out ELSE OutData(o) = c.outdec
        [] OTHER -> OutData(o) = c.out
